@@ -193,7 +193,12 @@ pub fn gen_tree(rng: &mut Rng, opts: &TreeOpts) -> TreeSpec {
             }
         }
     }
-    TreeSpec { root, entries, mtime_mode: if rng.chance(1, 5) { rng.range(1, 6) as u8 } else { 0 } }
+    let mut tree = TreeSpec { root, entries, mtime_mode: if rng.chance(1, 5) { rng.range(1, 6) as u8 } else { 0 } };
+    // half of the trees also hold what real deployments hold (see gen/real.rs)
+    if rng.chance(1, 2) {
+        super::real::add_realism(rng, &mut tree);
+    }
+    tree
 }
 
 /// request paths derived from the tree: every file, directories with and without slash, the
@@ -241,12 +246,14 @@ pub fn tree_paths(rng: &mut Rng, tree: &TreeSpec) -> Vec<(String, &'static str)>
     let n = out.len();
     for i in 0..n {
         let (p, _) = out[i].clone();
-        match rng.below(8) {
+        match rng.below(9) {
             0 => out.push((format!("{}?x=1&y=2", p), "with_query")),
             1 => out.push((format!("{}#frag", p), "with_fragment")),
             2 => out.push((format!("{}?q=a%20b#top", p), "with_query_and_fragment")),
             3 => out.push((p.replacen('/', "//", 1), "doubled_slash")),
             4 => out.push((format!("/.{}", p), "dot_segment")),
+            // ".." as a whole segment, but inside the query or fragment: not part of the path
+            5 => out.push((format!("{}{}", p, rng.pick(&["?return=/shop/../cart", "?dir=/docs/..", "#/../x", "?next=..", "?a=1&back=../", "?p=/..", "#..", "?q=x/../../y#z"])), "with_query_dotdot")),
             _ => {}
         }
     }
@@ -370,7 +377,7 @@ pub fn mutated_request(rng: &mut Rng, base_target: &str, buf: usize) -> (&'stati
     if rng.chance(1, 4) {
         return ("positional_mutation", positional_mutation(rng, t));
     }
-    match rng.below(46) {
+    match rng.below(52) {
         0 => ("valid_get", get(t)),
         1 => ("valid_head", req("HEAD", t, &[], b"")),
         2 => ("valid_options", req("OPTIONS", t, &[("Origin", "http://a.example"), ("Access-Control-Request-Method", "GET")], b"")),
@@ -501,6 +508,74 @@ pub fn mutated_request(rng: &mut Rng, base_target: &str, buf: usize) -> (&'stati
             } else {
                 ("query_odd", get(&format!("{}?{}", t, rng.pick(&["a=b=c", "&&&", "%", "a=%", "=", "\u{fc}=\u{fc}", "a[]=1&a[]=2", "x=1?y=2"]))))
             }
+        }
+        46 => {
+            // a header with the kind of syntax slip real clients produce, on a request that is otherwise fine
+            let (n, v) = *rng.pick(super::real::SLIPPED_HEADERS);
+            ("slipped_header", req(*rng.pick(&["GET", "GET", "HEAD", "OPTIONS", "POST"]), t, &[(n, v)], b""))
+        }
+        47 => {
+            // long and multi-byte values (every byte offset is the middle of a character now and then)
+            let name = *rng.pick(&["User-Agent", "User-Agent", "Referer", "Cookie", "Origin", "Accept-Language", "X-Forwarded-For", "Host", "Range", "Content-Type"]);
+            let n = if rng.chance(1, 2) { rng.range(40, 300) } else { *rng.pick(&[63usize, 64, 65, 79, 80, 81, 127, 128, 129, 255, 256, 257, 511, 512, 1023, 1024, 1025, 4095, 4096]) };
+            let phase = rng.below(n.max(1));
+            let val = super::real::utf8_of_len(rng, n, phase);
+            ("long_utf8_header", req(*rng.pick(&["GET", "HEAD", "OPTIONS"]), t, &[(name, &val)], b""))
+        }
+        48 => {
+            // very long values in the headers the CORS answer reflects, sized to the request buffer
+            let room = buf.saturating_sub(200).max(64);
+            let frac = *rng.pick(&[10usize, 25, 35, 40, 50, 70, 90, 99]);
+            let long = |len: usize, sep: bool| -> String { if sep { (0..len / 8 + 1).map(|i| format!("x-hdr-{:02}", i % 100)).collect::<Vec<_>>().join(",")[..len.max(1)].to_string() } else { "h".repeat(len.max(1)) } };
+            let (o, m, h) = match rng.below(3) {
+                0 => (format!("http://{}.example", long(room * frac / 100, false)), "GET".to_string(), "X-A".to_string()),
+                1 => ("http://a.example".to_string(), "GET".to_string(), long(room * frac / 100, true)),
+                _ => ("http://a.example".to_string(), long(room * frac / 100, false), "X-A".to_string()),
+            };
+            ("long_reflected_values", req(*rng.pick(&["OPTIONS", "OPTIONS", "GET"]), t, &[("Origin", &o), ("Access-Control-Request-Method", &m), ("Access-Control-Request-Headers", &h)], b""))
+        }
+        49 => {
+            // a multipart form with very many minimal parts (one unit of work per part)
+            let per = *rng.pick(&[9usize, 12, 40]);
+            let n = (buf.saturating_sub(300) / per).min(30_000).max(1);
+            let n = if rng.chance(1, 3) { rng.range(1, n) } else { n };
+            let mut body: Vec<u8> = vec![];
+            for i in 0..n {
+                match per {
+                    9 => body.extend_from_slice(b"--B
+
+
+"),
+                    12 => body.extend_from_slice(b"--B
+a:b
+
+
+"),
+                    _ => body.extend_from_slice(format!("--B
+Content-Disposition: form-data; name=\"f{}\"
+
+v
+", i).as_bytes()),
+                }
+            }
+            body.extend_from_slice(b"--B--
+");
+            ("multipart_many_parts", req("POST", FORM_MULTIPART, &[("Content-Type", "multipart/form-data; boundary=B"), ("Content-Length", &body.len().to_string())], &body))
+        }
+        50 => {
+            // raw control characters and header syntax inside the request target
+            let base = *rng.pick(&["/d", "/d/", "/page", "/file.txt", "/", "/missing", "/d/index.html"]);
+            let evil = *rng.pick(&["\rSet-Cookie:a=b", "\rX-Injected:1", "\rSet-Cookie: a=b", "\tx", "\x0b", "\x0c", "\x7f", "\x01", "%0d%0aX-Injected:%201", "\r", "a\rb\rc", "\u{85}", "\u{2028}", ": x", "\r\rLocation: http://evil.example/"]);
+            let t2 = match rng.below(3) {
+                0 => format!("{}?next={}", base, evil),
+                1 => format!("{}#{}", base, evil),
+                _ => format!("{}{}", base, evil),
+            };
+            ("target_control_chars", format!("{} {} HTTP/1.1\r\nHost: h\r\n\r\n", rng.pick(&["GET", "HEAD", "OPTIONS"]), t2).into_bytes())
+        }
+        51 => {
+            let (n, v) = *rng.pick(super::real::CONDITIONAL_HEADERS);
+            ("conditional_header", req(*rng.pick(&["GET", "HEAD"]), t, &[(n, v)], b""))
         }
         _ => {
             let route = *rng.pick(&["/", "/style.css", "/script.js", "/favicon.svg", "/404.html", "/index.html"]);
